@@ -25,11 +25,11 @@ func c09Run(r *simkit.Run) {
 	args.IntervalBroadcastBallot = func() time.Duration { return time.Second }
 
 	var (
-		st        *isaacstates.States
-		events    []isaacstates.VerifEvent
-		callbacks []string
+		st            *isaacstates.States
+		events        []isaacstates.VerifEvent
+		callbacks     []string
 		holdsInFlight int
-		holdSeen  bool
+		holdSeen      bool
 	)
 
 	failDen := []int{0, 12, 5}[r.Draw("handler_failure_density", 0, 2)]
@@ -216,11 +216,11 @@ func c09Run(r *simkit.Run) {
 
 func init() {
 	simkit.Register(&simkit.Harness{
-		ID:   "C09",
-		Run:  c09Run,
-		Real: []string{"isaacstates.States (switch loop, AskMoveState, checkStateSwitchContext, ensureSwitchState, exitAndEnter, SetAllowConsensus, Hold, voteproof channel)", "ballotBroadcastTimers / util.SimpleTimers"},
-		Stub: []string{"all seven state handlers are verif-tagged stubs (scratch copy only) whose enter/exit/newVoteproof outcomes (ok, error, redirecting switch context, ignore) come from the tape", "no handover brokers: the 'except by completing a handover' part of the statement is not exercised"},
-		Rule: "each run draws whether consensus is allowed at start, a handler failure density, 1-4 concurrent requesters x 1-10 requests: AskMoveState with a fresh or stale origin and any target, SetAllowConsensus toggles, voteproof injections, Hold, sleeps. Oracle, exactly the four clauses of the statement: STOPPED is left only for BOOTING/BROKEN (states sampled after every kernel step); a handler is only asked to exit for a context that starts at its own state; JOINING/CONSENSUS are never entered while consensus is not allowed; inside every switched callback Current() equals the reported state. distinct = event-log hash",
+		ID:          "C09",
+		Run:         c09Run,
+		Real:        []string{"isaacstates.States (switch loop, AskMoveState, checkStateSwitchContext, ensureSwitchState, exitAndEnter, SetAllowConsensus, Hold, voteproof channel)", "ballotBroadcastTimers / util.SimpleTimers"},
+		Stub:        []string{"all seven state handlers are verif-tagged stubs (scratch copy only) whose enter/exit/newVoteproof outcomes (ok, error, redirecting switch context, ignore) come from the tape", "no handover brokers: the 'except by completing a handover' part of the statement is not exercised"},
+		Rule:        "each run draws whether consensus is allowed at start, a handler failure density, 1-4 concurrent requesters x 1-10 requests: AskMoveState with a fresh or stale origin and any target, SetAllowConsensus toggles, voteproof injections, Hold, sleeps. Oracle, exactly the four clauses of the statement: STOPPED is left only for BOOTING/BROKEN (states sampled after every kernel step); a handler is only asked to exit for a context that starts at its own state; JOINING/CONSENSUS are never entered while consensus is not allowed; inside every switched callback Current() equals the reported state. distinct = event-log hash",
 		Assumptions: []string{"like the real joining/consensus handlers, the stubs ask to leave for SYNCING when consensus is withdrawn"},
 	})
 }
